@@ -213,7 +213,9 @@ def run_group(ctx, prop, lean=True, other_tiers=True):
 def ob_key(ob):
     """identity of an obligation across runs: kind + its text (contract clause / hazard description), without line numbers"""
     import hashlib
-    return hashlib.sha1('{}|{}'.format(ob.kind, ob.name).encode()).hexdigest()[:16]
+    import re
+    text = re.sub(r'\(line \d+\)', '(line)', ob.name)          # line numbers move with every edit above the statement
+    return hashlib.sha1('{}|{}'.format(ob.kind, text).encode()).hexdigest()[:16]
 
 
 BASELINE_DECISIVE = os.path.join(core.VERIF, 'baseline_decisive.json')
